@@ -68,11 +68,12 @@ GADGETS = [
     ('stack0-selected', '형.. 흑'), ('stack0-filled', '형.. 형... 하앙'), ('selected-4', '형.. 흑....'),
     ('renumbered', '형.. 흑....... 형... 흑....'), ('label-offset', '형 형 형.♥'),
     ('pending-return', '형 형... 항...♥ 항...♥!'), ('ends-in-area', '형.. 흑...♥'), ('ends-in-area-0', '흑♥'),
+    ('labels-desc', '형 형 형..💝 형.♥'), ('labels-asc', '형 형 형.♥ 형..💝 형 형...💕'),
     ('printed', '%s 항. %s 항..' % (push(65), push(66))), ('big-values', '%s %s 핫...' % (big(300, 300), big(257, 255))),
 ]
 TRIGGERS = [('read', '흑 항... 흑...'), ('exit', '형.... 흑. 항'), ('loop', loop_program(120)), ('select0', '흑'),
             ('select2', '형.... 흑..')]
-R8 = ['항.', '항.♡', '형.♥', '하앙.', '흑...', '형', '항...♥!', '흣.']
+R8 = ['항.', '항.♡', '형.♥', '하앙.', '흑...', '형', '항...♥!', '흣.', '형..💝']
 
 
 def fam_resume(maxres):
@@ -233,7 +234,7 @@ def batch_task(family, texts, stdin_text):
         else:
             continue
         o0 = interp[k]
-        to = LOOP_TIMEOUT if o0.kind == 'budget' else 20
+        to = LOOP_TIMEOUT if o0.kind == 'budget' else 5
         r, out, err = run_exe(args, stdin, to)
         st.inc('runs')
         st.add('kinds', o0.kind + ':' + o0.status)
@@ -321,8 +322,8 @@ def run_c03(tier):
         fams['templates'] = fam_templates()
         fams['areas'] = fam_areas(1) + fam_areas(2)[::7]
         fams['dispatch'] = fam_dispatch()
-        fams['general'] = fam_general(2, ['', '항. 항.']) + fam_general(3, [''])[::3]
-        fams['resume'] = fam_resume(1) + fam_resume(2)[::5]
+        fams['general'] = fam_general(2, ['', '항. 항.']) + fam_general(3, [''])[::5]
+        fams['resume'] = fam_resume(1) + fam_resume(2)[::7]
         fams['chars'] = fam_chars()
         fams['labels'] = fam_labels()
         standalone = fam_templates()[::12] + fam_chars()[::9] + [g + ' ' + t for _, g in GADGETS for _, t in TRIGGERS][::2]
